@@ -315,21 +315,14 @@ def show_val(v):
 def run(chk):
     cfg = "StepRegistry_MC_quick.cfg" if chk.quick() else "StepRegistry_MC_thorough.cfg"
     workers = int(os.environ.get("VERIF_WORKERS") or 16)
-    r = chk.tlc("StepRegistry_MC", cfg, timeout=800, workers=workers)
+    r = chk.tlc("StepRegistry_MC", cfg, timeout=120 if chk.quick() else 800, workers=workers, env={"C11_SEED": chk.seed})
     for name in r.violated:
         chk.violation("C11.design." + name, "design:%s" % name, "TLC: invariant %s violated in StepRegistry_MC (%s)" % (name, cfg))
-    cases = [json.loads(t[1]) for t in r.by_tag("CASE")]
-    n_bfs = len(cases)
-    # longer histories: random walks of the same state machine (at most SimRegs registrations)
-    nsim, depth = (400, 9) if chk.quick() else (4000, 13)
-    s = chk.tlc("StepRegistry_MC", cfg, timeout=800, workers=workers, simulate=nsim, depth=depth)
-    for name in s.violated:
-        chk.violation("C11.design." + name, "design:%s" % name, "TLC: invariant %s violated in StepRegistry_MC (%s, simulation)" % (name, cfg))
-    seen = set(json.dumps(c["acts"], sort_keys=True) for c in cases)
-    for t in s.by_tag("CASE"):
+    cases, seen = [], set()
+    for t in r.by_tag("CASE"):
         c = json.loads(t[1])
         key = json.dumps(c["acts"], sort_keys=True)
-        if key not in seen:
+        if key not in seen:                     # a small-pool pattern is also reached as a "single" behaviour
             seen.add(key)
             cases.append(c)
     cases.sort(key=lambda c: json.dumps(c["acts"], sort_keys=True))         # TLC's worker interleaving is not an input
@@ -352,14 +345,17 @@ def run(chk):
         case = cases[row["id"] - 1]
         chk.sample({"history": describe(case["acts"]), "observed_register_results": [a["res"] for a in row["acts"] if a["a"] == "reg"],
                     "lookups": len(row["looks"]), "bound": sum(1 for l in row["looks"] if l["out"] == "match")})
-    chk.rule = ("BFS: every pattern of the big pool x matcher kind x step type as a single registration, and every history of "
-                "at most BfsRegs registrations over the small pool (matcher switch / module end / default matcher / new or "
-                "re-used function before each); simulation: random histories up to SimRegs registrations; every history is "
+    chk.rule = ("every pattern of the big pool x matcher kind x step type as a single registration, and every history of "
+                "at most FullRegs registrations over the small pool (matcher switch / module end / default matcher / new or "
+                "re-used function before each); longer histories up to MaxRegs: seeded hash sample; every history is "
                 "followed by all lookups step type x derived text (2 instances, wrong case, changed literal, prefix, suffix "
                 "per registered pattern); distinct = distinct histories")
     chk.extra["distinct_nontrivial"] = len(seen)
-    chk.extra["histories_bfs"] = n_bfs
-    chk.extra["histories_simulation_new"] = len(cases) - n_bfs
+    nregs = {}
+    for c in cases:
+        n = sum(1 for a in c["acts"] if a["a"] == "reg")
+        nregs[n] = nregs.get(n, 0) + 1
+    chk.extra["histories_by_registrations"] = {str(k): v for k, v in sorted(nregs.items())}
     chk.extra["lookups_bound"] = found
     chk.extra["distinct_single_pattern_lookups"] = len(pairs)
     chk.assumptions = [
